@@ -41,6 +41,15 @@ static void *vpd_memset(void *p, int c, size_t n)
 	return p;
 }
 #endif
+#ifdef VP_CBMC
+static void *vpd_memcpy(void *d, const void *s, size_t n)
+{
+	if (n == sizeof(struct reply)) *(struct reply *)d = *(const struct reply *)s;
+	else if (n == sizeof(struct vpd_request_obj) || n == sizeof(struct request) + VPD_REQDATA) *(struct vpd_request_obj *)d = *(const struct vpd_request_obj *)s;
+	else { size_t i; for (i = 0; i < n; i++) ((unsigned char *)d)[i] = ((const unsigned char *)s)[i]; }
+	return d;
+}
+#endif
 /* calloc: cbmc types calloc(1, sizeof(T)) as a byte array, so the typed cases are malloc(sizeof(T)) + a typed zero */
 static void *vpd_calloc(size_t n, size_t sz)
 {
